@@ -17,11 +17,11 @@ from ref import linre
 
 PROPERTY = "C15"
 LEVEL = "exploration"
-RULE = ("every determinate model of the generated linear RE family (C01) and 6 unit-root mixtures x 3 std vectors x "
+RULE = ("every determinate model of the generated linear RE family (C01) and 6 unit-root mixtures x 4 std vectors x "
         "orders 0..3 x {single variant, 3 variants with different stds}; distinct non-trivial = (model, std vector, variant mode)")
 MANIFEST_ENTRY = dict(level="exploration", design="DESIGN.md section 4 / C15",
     technique="bounded-exhaustive enumeration of solved generated models x std vectors x orders; independent moving-average-sum oracle cross-checked by a Kronecker Lyapunov solve",
-    text="For every determinate model of the generated family (quick ~370, thorough ~1700 models incl. log-variable and unit-root ones) x 3 std vectors x orders 0..3, get_acov must equal the harness's own stationary autocovariances T^j*Omega of the reported first-order solution (1500-term moving-average sums of the reported solution, self-checked against a direct Kronecker Lyapunov solve on fully stationary models), measurement block Z*Omega*Z'+H*Sw*H' and cross blocks in the order of get_acov_dimension_names(); variables loading on a unit eigenvector must be NaN and all others finite; get_acorr must be the acov scaled by order-0 stds; rescale_stds(s) must scale everything by s^2; variant k of a 3-variant model must equal the single-variant result.",
+    text="For every determinate model of the generated family (quick ~370, thorough ~1700 models incl. log-variable and unit-root ones) x 4 std vectors x orders 0..3, get_acov must equal the harness's own stationary autocovariances T^j*Omega of the reported first-order solution (1500-term moving-average sums of the reported solution, self-checked against a direct Kronecker Lyapunov solve on fully stationary models), measurement block Z*Omega*Z'+H*Sw*H' and cross blocks in the order of get_acov_dimension_names(); variables loading on a unit eigenvector must be NaN and all others finite; get_acorr must be the acov scaled by order-0 stds; rescale_stds(s) must scale everything by s^2; variant k of a 3-variant model must equal the single-variant result.",
     note="Trusted: numpy eig / solve; the first-order solution itself is taken as given (validated by C01). Models whose slowest stationary root leaves the MA tail undecided after 1500 terms are excluded by the oracle and counted.")
 ASSUMPTIONS = ["the first-order solution matrices (T, P, Z, H) are correct (decided by C01)"]
 
@@ -55,6 +55,8 @@ def std_vectors(spec, seed):
         [1.0 * r] * len(names),
         [round(0.5 * r + 0.4 * i, 6) for i in range(len(names))],
         [0.0 if i == 0 else 1.3 * r for i in range(len(names))],
+        # very small stds (variances around 1e-13): correlations do not depend on the common scale
+        [3e-7 * round(0.5 * r + 0.4 * i, 6) for i in range(len(names))],
     ]
 
 
@@ -192,7 +194,7 @@ def check_model(spec, res, ctx):
             expc[nanmask, :] = np.nan
             expc[:, nanmask] = np.nan
             gotc = np.asarray(co[j], dtype=float)
-            tiny = sd < 1e-6 * max(1.0, np.sqrt(scale))      # correlation with a (numerically) constant variable is not defined
+            tiny = sd <= 1e-6 * np.sqrt(scale)      # correlation with a (relative to the others) constant variable is not defined
             expc[tiny, :] = np.nan
             expc[:, tiny] = np.nan
             ok_cells = np.isfinite(expc)
@@ -215,8 +217,9 @@ def check_model(spec, res, ctx):
         except Exception as e:
             bad("exception", "rescale: %s: %s" % (type(e).__name__, str(e)[:200]), error=type(e).__name__)
     # variants: variant k of a 3-variant model == single-variant result
-    if results and len(results) == 3:
+    if results and len(results) == len(vectors):
         res.ev()
+        res.count("variant_runs")
         try:
             m3 = m.copy()
             m3.alter_num_variants(3)
@@ -258,7 +261,8 @@ def run(ctx, total, info):
     engine.run_shards(__name__, "shard", [s.to_json() for s in fam], ctx, total)
     info["models"] = len(fam)
     info["exhaustive"] = True
-    info["floors"] = {"cases": (len(total.nontrivial), 600), "nan_patterns": (len(total.classes.get("nan_pattern", ())), 4)}
+    info["floors"] = {"cases": (len(total.nontrivial), 600), "nan_patterns": (len(total.classes.get("nan_pattern", ())), 4),
+                      "variant_runs": (total.counters.get("variant_runs", 0), 200)}
 
 
 def replay(case):
